@@ -34,6 +34,14 @@ CHECKS = {
    text="Bounded exhaustive symbolic check of Fatigue.damage, the Miner elementary/Haibach lifetime multiples, solidity and gassner_cycles on symbolic collectives: amplitudes > 0, cycle counts >= 0 (zero allowed: empty classes at top, bottom, in between are paths), SD, ND > 0 symbolic, slope k_1 a concrete integer so that all quantities are rational functions. Additivity, proportionality to the counts, member-order independence, original <= Haibach <= elementary per class; the collective scaled to the predicted Gassner cycles has damage sum one under the corresponding rule (decided as a rational-function identity); effective damage sum in [0.3, 1].",
    note="Bounds: 1..3 (quick) / 1..4 (thorough) classes, k_1 in {3,5} / {3,4,5}, failure probability 0.5, TN=TS=1. np/pd facades keep object dtype inside woehlercurve/miner/solidity (self-tested against numpy). x**(1/4) over-approximated by an arbitrary positive real. Non-integer slopes and IntervalIndex histograms are outside.",
    design="6 C11"),
+ "C16": dict(
+   text="Symbolic check of the closed-form identities on the real code: Hooke's law 1D / plane stress / plane strain / 3D with symbolic E > 0, -1 < nu < 1/2 and symbolic components: stress(strain(.)) and strain(stress(.)) are the identity, plane strain == 3D at zero out-of-plane strain, plane stress == 3D at zero out-of-plane stress, G and K follow from E and nu (decided as rational-function identities); Ramberg-Osgood with x**y as an uninterpreted function: strain is odd, the Masing range function is the doubled curve, the lower hysteresis branch meets the curve at the reversal point and raises above it, tangential modulus is the reciprocal of the compliance.",
+   note="Claimed in part: the Newton inverses stress()/delta_stress() (convergence of a float iteration), 'compliance is the derivative' (calculus), strict monotonicity of the real power function and the true stress/strain conversions (no inverse in the code) are outside. No loop bound is involved. np facade in rambgood (self-tested).",
+   design="6 C16"),
+ "C17": dict(
+   text="Symbolic check of the real equistress functions with numpy.linalg.eigvalsh replaced by its contract: tresca = l3 - l1, max/min principal, absolute maximum principal = eigenvalue of largest magnitude with its sign, signed variants = documented sign (+1 for a zero indicator) times the unsigned value, mises**2 = half the sum of squared principal differences and mises >= 0 (from the component formula under the Vieta relations, sqrt exact), mises <= tresca <= 2/sqrt(3) mises, positive scaling and rotation invariance of mises about each coordinate axis with symbolic (cos, sin), accessor == functions row by row.",
+   note="Claimed in part: rotation invariance / scaling of the eigenvalue-based quantities would be inherited from the stub and LAPACK itself is not the subject. Eigenvalue-only clauses use a free ordered spectrum (over-approximation), the Mises/Tresca bounds use the separately decided mises definition as a lemma. 1 row (definitions) / 2 rows (accessor).",
+   design="6 C17"),
 }
 NA = {
  "C06": "subject is convergence/accuracy of scipy Newton/secant iterations on equations with real-exponent powers: no SMT theory for x**y, cos, log or for float iteration convergence; stubbing the power removes the subject",
